@@ -170,6 +170,13 @@ def handle (st : DState) (ws : List String) : String × DState :=
       match docOfSpec spec with
       | none => pure "bad-doc"
       | some v => pure s!"ok {showVal v} {hexOrDash (MD.ser v)} dest-ok"
+  | ["jsonre", cfgs, lim, ha, hb] =>
+      let cfg := cfgOfBits cfgs.toNat!
+      let once (h : String) := let (c, v, _) := run cfg lim.toNat! (unhex h); s!"{showCode c} {showVal v}"
+      pure s!"{once ha} ; {once hb} ; {once ha}"
+  | ["mpre", lim, ha, hb] =>
+      let once (h : String) := let (c, v, _) := MD.run {} lim.toNat! .all (unhex h); s!"{showCode c} {showVal v}"
+      pure s!"{once ha} ; {once hb} ; {once ha}"
   | [op, cfgs, cap, spec] =>
       if op == "jsonbuf" || op == "prettybuf" || op == "mpbuf" then
         match docOfSpec spec with
